@@ -207,6 +207,7 @@ class MibCompiler(object):
         builtMibs = {}
         symbolTableMap = {}
         mibsToParse = [x for x in mibnames]
+        fetchedMibs = set()
         canonicalMibNames = {}
 
         while mibsToParse:
@@ -218,6 +219,10 @@ class MibCompiler(object):
 
             if mibname in failedMibs:
                 debug.logger & debug.flagCompiler and debug.logger('MIB %s already failed' % mibname)
+                continue
+
+            if mibname in fetchedMibs:
+                debug.logger & debug.flagCompiler and debug.logger('MIB %s already fetched' % mibname)
                 continue
 
             for source in self._sources:
@@ -257,6 +262,8 @@ class MibCompiler(object):
                         debug.logger & debug.flagCompiler and debug.logger(
                             '%s (%s) read from %s, immediate dependencies: %s' % (
                                 mibInfo.name, mibname, fileInfo.path, ', '.join(mibInfo.imported) or '<none>'))
+
+                    fetchedMibs.add(mibname)
 
                     break
 
